@@ -443,7 +443,7 @@ func TestC19(t *testing.T) {
 	r.Rule("virtual-time (synctest) sequences of SetTimeout/SetInterval/Refresh/Stop/ClearTimeout/ClearInterval on 1-3 timers, operations placed on and off the due instants, issued from other goroutines, with repeated and concurrent cancels; each run compared with a reference schedule (required / optional-at-coincidence / forbidden instants), cancel-return watchdog and bubble leftover scan; gate lanes hold the interval loop between tick and re-arm and a canceller between runtime Stop and its signal; distinct = (timer kinds, op multiset, number of coincident ops, outcome)")
 	r.Assume("an operation issued at exactly a due instant races with the runtime timer by design: the callback of that instant may or may not run (optional), everything else is exact")
 	r.Assume("Refresh is specified for timeouts (pending or fired, not cancelled); it is not generated for intervals or after a cancel")
-	n := r.N(6000, 400000)
+	n := r.N(20000, 1500000)
 	rng := r.Rand(19)
 	for i := 0; i < n; i++ {
 		c := genTimerCase(rng)
